@@ -87,7 +87,7 @@ fn lookup(id: &str) -> Option<(&'static str, Gen, Exec)> {
         "C14" => Some(("C14", c14::generate, c14::exec)),
         "C01" => Some(("C01", c01_generate, c01_exec)),
         "C02" => Some(("C02", c02_generate, c02_exec)),
-        "C10" => Some(("C10", c10::generate, c10::exec)),
+        "C10" => Some(("C10", c10_generate, c10_exec)),
         "C09" => Some(("C09", c09::generate, c09::exec)),
         "C04" => Some(("C04", c04_generate, c04_exec)),
         "C11" => Some(("C11", c11_generate, c11_exec)),
@@ -117,17 +117,37 @@ fn c02_exec(toks: &[&str]) -> String {
     if toks.first() == Some(&"cmsd") { certd::exec_cms(toks) } else { c02::exec(toks) }
 }
 
+fn c10_generate(ctx: &mut Ctx) {
+    c10::generate(ctx);
+    let pool = pki::Pool::new(3);
+    certd::generate_msg_into(ctx, &c04::seeds(&pool), &c04::mutate_any, &|_| Vec::new());
+}
+
+fn c10_exec(toks: &[&str]) -> String {
+    match toks.first() {
+        Some(&"idcd") => certd::exec_idc(toks),
+        Some(&"smsgd") => certd::exec_smsg(toks),
+        _ => c10::exec(toks),
+    }
+}
+
 fn c04_generate(ctx: &mut Ctx) {
     c04::generate(ctx);
     certd::generate_into(ctx, &c04::mutate_any, &c04::systematic);
     let pool = pki::Pool::new(3);
-    certd::generate_cms_into(ctx, &c04::seeds(&pool), &c04::mutate_any, &c04::systematic);
+    let seeds = c04::seeds(&pool);
+    certd::generate_cms_into(ctx, &seeds, &c04::mutate_any, &c04::systematic);
+    certd::generate_crl_into(ctx, &seeds, &c04::mutate_any, &c04::systematic);
+    certd::generate_msg_into(ctx, &seeds, &c04::mutate_any, &c04::systematic);
 }
 
 fn c04_exec(toks: &[&str]) -> String {
     match toks.first() {
         Some(&"certd") => certd::exec(toks),
         Some(&"cmsd") => certd::exec_cms(toks),
+        Some(&"crld") => certd::exec_crl(toks),
+        Some(&"idcd") => certd::exec_idc(toks),
+        Some(&"smsgd") => certd::exec_smsg(toks),
         _ => c04::exec(toks),
     }
 }
